@@ -19,6 +19,7 @@ RULE = ("(a) system: restricted networks (integer servers 1-3, queue capacities 
         "'no false positive' half.  (b) unit: StateDigraph.detect_deadlock on wait-for digraphs built from generated server "
         "configurations vs the same fixpoint.  Non-trivial (a): deadlock reached after >= 1 resolved blockage; distinct by digest.")
 ASSUMPTIONS = ["deadlock is defined structurally (the property's own definition), not by waiting"]
+TECHNIQUE = 'property-based testing: simulate_until_deadlock against an independent structural fixpoint oracle after every event; unit property of detect_deadlock on generated server configurations'
 WALL = {"quick": 150, "thorough": 540}
 
 ALLOWED = ["capacity", "priorities", "batching", "self_loops", "routing_objects", "process_routing", "discipline", "cc_after", "zero_service",
